@@ -625,9 +625,16 @@ func runEta(c *c16Case) interface{} {
 		return map[string]interface{}{"obs": []uint64{0}} // logger.Fatal in the code
 	}
 	res := []uint64{1}
-	for _, en := range rs.entriesToApply(ents) {
-		res = append(res, en.Index)
-	}
+	func() {
+		defer func() {
+			if x := recover(); x != nil {
+				res = []uint64{2}
+			}
+		}()
+		for _, en := range rs.entriesToApply(ents) {
+			res = append(res, en.Index)
+		}
+	}()
 	return map[string]interface{}{"obs": res}
 }
 
